@@ -11,7 +11,7 @@ from . import c01, c02, c03
 ID = "C04"
 LEVEL = "proof"
 PROP_FILE = "Properties/C04.v"
-PROOF_FILES = ["Proofs/SpfsFinal.v", "Proofs/SpfsProofs.v", "Proofs/UspfsFinal.v", "Proofs/UspfsProofs.v", "Proofs/ThlFinal.v", "Proofs/ThlProofs.v", "Proofs/ExhProofs.v", "Proofs/LcaProofs.v", "Proofs/DpProofs.v", "Proofs/EntryProofs.v",
+PROOF_FILES = ["Proofs/FiniteCostProofs.v", "Proofs/PolyBoundProofs.v", "Model/Poly.v", "Proofs/PolyProofs.v", "Proofs/SpfsFinal.v", "Proofs/SpfsProofs.v", "Proofs/UspfsFinal.v", "Proofs/UspfsProofs.v", "Proofs/ThlFinal.v", "Proofs/ThlProofs.v", "Proofs/ExhProofs.v", "Proofs/LcaProofs.v", "Proofs/DpProofs.v", "Proofs/EntryProofs.v",
                "Proofs/ReconProofs.v", "Proofs/PathFacts.v", "Model/Thl.v", "Model/Spfs.v", "Model/Uspfs.v", "Model/Recon.v", "Model/Entry.v"]
 TRUSTED = c01.TRUSTED + c02.TRUSTED + c03.TRUSTED
 ASSUMES = ["binary trees for the modelled part; multifurcating inputs are checked on the implementation's outputs only"]
@@ -19,10 +19,12 @@ RULE = ("same input space as C01-C03 but with arbitrary (also incoherent) cost v
         "non-trivial = a solution with at least one duplication/transfer or a labelled solution with >= 3 leaves")
 OPEN_GOALS: list = []
 TECHNIQUE = "Coq proof of validity of every decoded solution for all seven algorithms, with no hypothesis on the unit costs (decode soundness over the faithful table models)"
-LEVEL_TEXT = ("Machine-checked for any unit costs (sloss = 0 and incoherent vectors included), both policies: every solution returned by lca, thl, exh, base/ext SPFS and base/ext USPFS maps every object node, "
-              "keeps the leaves on their species, has no invalid event; ordered: leaf syntenies exact, every child a subsequence of its parent, root = a compatible root order (every family once), the evaluator does not fail; "
-              "unordered: a family occurs only inside the subtree of its gain node and on every node of the branch down to where it occurs. "
-              "Multifurcating inputs are covered by the C08 theorems on the refinement enumerator plus the validity predicates evaluated on the implementation's outputs.")
+LEVEL_TEXT = ("Machine-checked for any unit costs (sloss = 0, incoherent vectors and an infinite transfer cost included), both policies: every solution returned by lca, thl, exh, base/ext SPFS and "
+              "base/ext USPFS maps every object node, keeps the leaves on their species, has no invalid event and has a FINITE evaluated cost equal to the value of the entry (C04_finite_*); ordered: leaf syntenies exact, "
+              "every child a subsequence of its parent, root = a compatible root order (every family once), the evaluator does not fail; unordered: a family occurs only inside the subtree of its gain node and on every node "
+              "of the branch down to where it occurs. Multifurcating inputs: every solution the extended solvers return refers to a pair of binary refinements of the two trees and is valid and of finite cost on that pair "
+              "(C04_valid_poly_ordered / _unordered, any costs, any policy). The validity predicates and finiteness are also evaluated on the implementation's outputs, including those on multifurcating inputs "
+              "(each read on its own refinement).")
 LEVEL_NOTE = "Trusted: Coq kernel, hand-written models, correspondence (differential testing). No axioms. Theorems are about the code after fixes D4-D6."
 
 
